@@ -420,7 +420,11 @@ func (w *world) concurrent() {
 				l := lookup{a: a, by: ri}
 				l.inv = simrt.Stamp()
 				active := writersLeft > 0
-				l.got = w.f.Contains(ip4(a))
+				probeIP := ip4(a)
+				if ch("r.form16", 3) == 0 {
+					probeIP = probeIP.To16()
+				}
+				l.got = w.f.Contains(probeIP)
 				l.ret = simrt.Stamp()
 				if active && writersLeft > 0 {
 					simrt.Probe("lookup_overlaps_writers")
